@@ -2,6 +2,14 @@ module go.einride.tech/can/zzverif
 
 go 1.19
 
-require go.einride.tech/can v0.0.0
+require (
+	go.einride.tech/can v0.0.0
+	golang.org/x/sys v0.28.0
+)
+
+require (
+	golang.org/x/net v0.33.0 // indirect
+	golang.org/x/sync v0.7.0 // indirect
+)
 
 replace go.einride.tech/can => /repo
